@@ -205,6 +205,23 @@ func TestMergeHistoriesRapid(t *testing.T) {
 		lk := newLookups()
 		defer lk.stop()
 		ts := map[string]int64{}
+		// entries written by older clients carry no Id field (the map key is the identifier; the ring
+		// client fills the field in when it loads a descriptor): per history, some instances are such
+		legacy := map[string]bool{}
+		if rapid.IntRange(0, 2).Draw(rt, "someLegacyEntries") == 0 {
+			for _, id := range idSpace {
+				if rapid.Bool().Draw(rt, "legacy") {
+					legacy[id] = true
+				}
+			}
+			vx.Class("histories_with_entries_without_id_field", 1)
+		}
+		idField := func(id string) string {
+			if legacy[id] {
+				return ""
+			}
+			return id
+		}
 		var pool []*ring.Desc // every change ever returned by a merge
 		steps := rapid.IntRange(1, vx.Pick(20, 30)).Draw(rt, "steps")
 		var hist []string
@@ -229,7 +246,7 @@ func TestMergeHistoriesRapid(t *testing.T) {
 					}
 					toks := rapid.SliceOfN(rapid.SampledFrom(tokenSpace), 0, 4).Draw(rt, "toks")
 					st := rapid.SampledFrom(states5).Draw(rt, "state")
-					inc.Ingesters[id] = ring.InstanceDesc{Id: id, Addr: id + ":1", Zone: zoneOf[id], Timestamp: ts[id], State: st, Tokens: toks}
+					inc.Ingesters[id] = ring.InstanceDesc{Id: idField(id), Addr: id + ":1", Zone: zoneOf[id], Timestamp: ts[id], State: st, Tokens: toks}
 				}
 			case kind <= 7:
 				inc = model.CloneDesc(pool[rapid.IntRange(0, len(pool)-1).Draw(rt, "poolIdx")])
@@ -245,7 +262,7 @@ func TestMergeHistoriesRapid(t *testing.T) {
 					ts[id]++
 					toks := rapid.SliceOfN(rapid.SampledFrom(tokenSpace), 0, 4).Draw(rt, "casToks")
 					st := rapid.SampledFrom(states5[:4]).Draw(rt, "casState")
-					inc.Ingesters[id] = ring.InstanceDesc{Id: id, Addr: id + ":1", Zone: zoneOf[id], Timestamp: ts[id], State: st, Tokens: normTokens(toks)}
+					inc.Ingesters[id] = ring.InstanceDesc{Id: idField(id), Addr: id + ":1", Zone: zoneOf[id], Timestamp: ts[id], State: st, Tokens: normTokens(toks)}
 				}
 			}
 			pre := model.CloneDesc(recv)
